@@ -363,6 +363,8 @@ def evaluate(res, valids):
         return [("hang_step_budget", "step budget exceeded: %s" % (tr.z,))]
     if res.rc == 95:
         raise RuntimeError("harness error reported by s4_verif_rt: %r" % res.stderr[-500:])
+    if b"memory allocation of" in res.stderr and res.rc not in (0, 1):
+        return [("abort_huge_allocation", "exit status %s under a 3 GiB address-space limit; stderr tail: %r" % (res.rc, res.stderr[-300:]))]
     if res.rc not in (0, 1) or b"panicked at" in res.stderr:
         return [("crash", "exit status %s; stderr tail: %r" % (res.rc, res.stderr[-700:]))]
     # an accounting record is printed as "<fields>\n\0" (known finding F-C08b, checked by C08): that NUL is the first
@@ -518,6 +520,35 @@ def field_case(rng):
     return build_case(rng)
 
 
+def evtx_record_case(rng):
+    """the shipped event log with 1..3 bytes replaced inside its record area (the evtx reader does not verify chunk
+    checksums, so such damage reaches the binary-XML decoder), plain or inside a container"""
+    base = bytearray(fixtures.load("pnp"))
+    used = 0x1000 + 3 * 0x10000
+    bytes_ = []
+    for _ in range(rng.choice((1, 1, 1, 2, 3))):
+        at = rng.randrange(0x1000, used) if rng.random() < 0.8 else rng.randrange(0, 0x1000)
+        val = rng.choice((0x00, 0x01, 0x7F, 0x80, 0xFF, base[at] ^ 0x80, base[at] ^ 0x01, rng.getrandbits(8)))
+        base[at] = val
+        bytes_.append([at, val])
+    cont = rng.choice(("plain", "plain", "plain", "gz", "lz4", "tar"))
+    if cont == "plain":
+        name, data = "f.evtx", bytes(base)
+    elif cont == "tar":
+        name, data = "f_arch.tar", world.to_tar([("f.evtx", bytes(base), 1600000000)], "ustar")
+    else:
+        data, _ = world.random_container(rng, cont, bytes(base), 1600000000, "f.evtx")
+        name = "f.evtx" + world.SUFFIX[cont]
+    files = [core.FileSpec(name, data, 1600000000)]
+    valids = []
+    if rng.random() < 0.3:
+        valids = merge.gen_sources(rng, 1, 65536, max_msgs=6, allow_degenerate=False, letter_base=6)
+        valids[0].path = "v0.log"
+        files.insert(rng.randrange(2), core.FileSpec("v0.log", valids[0].stored, 1600000000))
+    argv = ["--color", "never", "-n", "--tz-offset", "+00:00"] + [f.path for f in files]
+    return core.Scenario(files, argv, None, "UTC"), valids, {"fault": "evtx_record_bytes", "bytes": bytes_, "base_kind": "evtx", "base_container": cont}
+
+
 def sweep_case(rng, j, tier):
     """fixed-record files: one byte set to an extreme value (time fields, type fields, sizes ...)"""
     L = enum_list()
@@ -541,6 +572,8 @@ def run_case(seed, i, tier):
     cr = CaseResult()
     if i % 8 == 7:
         scn, valids, fdesc = timefield_case(rng)
+    elif i % 16 == 11:
+        scn, valids, fdesc = evtx_record_case(rng)
     elif i % 8 == 3:
         scn, valids, fdesc = field_case(rng)
     elif i % 2 == 1:
@@ -570,7 +603,7 @@ def run_case(seed, i, tier):
         for (cls, detail) in vs:
             rp = {"scenario": scn.to_json(), "plan": plan.as_replay(tr).to_json(), "class": cls, "fault": fdesc,
                   "valids": mergecheck.sources_to_json(valids)}
-            cr.violations.append(Violation(cls, "fault=%s argv=%s: %s" % (fdesc, scn.argv, detail), rp))
+            cr.violations.append(Violation(cls, "fault=%s argv=%s: %s" % (fdesc, scn.argv, detail), rp, known=known_for(cls, fdesc)))
         if vs:
             break
     if True:
@@ -578,8 +611,33 @@ def run_case(seed, i, tier):
     return cr
 
 
+KNOWN = {}
+
+
+def known_for(cls, fdesc):
+    """an open known finding covers this violation only if class AND the damaged file's kind match its signature"""
+    if not KNOWN:
+        for kf in engine.load_known(PROP):
+            if kf["status"] == "open":
+                KNOWN[kf["id"]] = kf
+        KNOWN.setdefault("_", None)
+    for kid, kf in KNOWN.items():
+        if kf and cls in kf["signature"].get("classes", []) and fdesc.get("base_kind") in kf["signature"].get("base_kinds", []):
+            return kid
+    return None
+
+
 def classes_of(rp):
     core.ADDRESS_SPACE_LIMIT = 3 << 30
+    if rp.get("fixture_flip"):
+        # a shipped file with single bytes replaced (kept out of the replay document: the file is a megabyte)
+        ff = rp["fixture_flip"]
+        b = bytearray(fixtures.load(ff["fixture"]))
+        for (at, val) in ff["bytes"]:
+            b[at] = val
+        scn = core.Scenario([core.FileSpec(ff["name"], bytes(b), 1600000000)], ["--color", "never", "-n", "--tz-offset", "+00:00", ff["name"]], None, "UTC")
+        res = core.execute(scn, core.Plan(seed=1, policy="lowest"))
+        return set(c for (c, _) in evaluate(res, []))
     scn = core.Scenario.from_json(rp["scenario"])
     plan = core.Plan.from_json(rp["plan"])
     res = core.execute(scn, plan)
